@@ -53,11 +53,31 @@ def desc_from_spec(spec):
             else:
                 a.maxmin(e, sets[ob['set']])
 
+        dcount = [0]
+
         def decoy():
-            # a throw-away robust constraint with its own set: defines and formulates another set in between
-            d = (zs[0] * 1.0 + xs[0].sum() * 0.0 <= 100.0) if zs else None
-            if d is not None:
-                d.forall(zs[0] >= -7.0, zs[0] <= 7.0, a.rso.norm(zs[0].reshape((zs[0].size,)), 1) <= 9.0)
+            # a throw-away robust constraint with its own SMALL set: defines and formulates another set in between.  The
+            # sets are tight on purpose (a constraint of a decoy that leaks into a later set shrinks it visibly) and go
+            # through every constraint list of the shared support model: bounds, linear rows, abs / 1-norm / inf-norm,
+            # 2-norm, p-norm (power cones), exponential-cone atoms
+            if not zs:
+                return
+            z = zs[0]
+            zf = z.reshape((z.size,))
+            d = (z * 1.0 + xs[0].sum() * 0.0 <= 100.0)
+            rso = a.rso
+            kinds = [
+                lambda: d.forall(z >= -0.25, z <= 0.25),
+                lambda: d.forall(rso.norm(zf, 1) <= 0.25),
+                lambda: d.forall(abs(zf) <= 0.125),
+                lambda: d.forall(rso.norm(zf, 'inf') <= 0.25, zf.sum() <= 0.125),
+                lambda: d.forall(rso.norm(zf, 2) <= 0.25),
+                lambda: d.forall(rso.pnorm(zf, 3) <= 0.25),
+                lambda: d.forall(rso.exp(zf).sum() <= zf.size + 0.125, zf >= -0.125),
+                lambda: d.forall(rso.entropy(zf + 1.0) >= -0.125, zf <= 0.25, zf >= -0.25),
+            ]
+            kinds[dcount[0] % len(kinds)]()
+            dcount[0] += 1
 
         if 'objective_first' in hist or 'formulate_between' in hist or 'solve_between' in hist:
             objective()
